@@ -77,6 +77,38 @@ func Lib() *ty.Env {
 	ue3 := add("UE3", "", ty.St(f("A", b("int")), f("B", b("string"))), false) // 39: Equal / Compare take an interface{}
 	e.Decls[ue3].Methods = "Ei.Ci"
 	add("UW3", "", ty.St(f("P", ty.P(ty.N(39))), f("V", ty.N(39)), f("L", ty.Sl(ty.N(39)))), false) // 40
+	// embedding: a struct that EMBEDS a type with Equal/Compare methods has them promoted into its method set but does
+	// not declare them (it is compared field by field, the embedded field by its method); and an outer field that
+	// shadows a field of the embedded struct (selectors must go through the embedded field)
+	add("EmU", "", ty.St(ty.Field{Name: "UE3", Embedded: true, T: ty.N(39)}, f("N", b("int"))), false) // 41
+	add("ES", "", ty.St(ty.Field{Name: "S1", Embedded: true, T: ty.N(5)}, f("A", b("string"))), false) // 42
+	return e
+}
+
+// LocalPkg is the derive package that also DECLARES types: for the generator these are not external (no
+// reflect/unsafe path, unexported fields reached directly, embedded fields promoted in the same package).
+const LocalPkg = "q0"
+
+// LibLocal is Lib plus declarations that live in the derive package LocalPkg itself. Only the type corpus
+// (gencorpus) and the helper-request observer use it: the other generators keep their own package layout.
+func LibLocal() *ty.Env {
+	e := Lib()
+	n := len(e.Decls)
+	add := func(name string, u *ty.Ty) int {
+		e.Decls = append(e.Decls, &ty.Decl{Name: name, Pkg: LocalPkg, Under: u})
+		return len(e.Decls) - 1
+	}
+	f, b := ty.F, ty.B
+	ls1 := add("LS1", ty.St(f("A", b("int")), f("b", b("string"))))                                                // n+0: an unexported field, reached directly
+	ls2 := add("LS2", ty.St(f("A", ty.P(b("int"))), f("b", ty.Sl(b("int"))), f("C", ty.M(b("string"), b("int"))))) // n+1
+	lr := add("LR", ty.St(f("V", b("int")), f("next", ty.P(ty.N(n+2)))))                                           // n+2: recursive through an unexported field
+	add("LES", ty.St(ty.Field{Name: "LS1", Embedded: true, T: ty.N(ls1)}, f("A", b("string"))))                    // n+3: the outer A shadows LS1.A
+	add("LEm", ty.St(ty.Field{Name: "LS2", Embedded: true, T: ty.N(ls2)}, f("X", ty.Sl(b("byte")))))               // n+4
+	lue := add("LUE", ty.St(f("A", b("int")), f("B", ty.Sl(b("int")))))                                            // n+5: own methods, pointer receivers
+	e.Decls[lue].Methods = "Ep.Cp.Hp"
+	add("LW", ty.St(f("P", ty.P(ty.N(lue))), f("V", ty.N(lue)), f("L", ty.Sl(ty.N(ls1))), f("M", ty.M(b("string"), ty.N(ls2))),
+		f("x", ty.N(17)), f("R", ty.P(ty.N(lr))), f("E", ty.N(n+3)))) // n+6: local and imported parts side by side
+	add("LNF", b("float64")) // n+7: a local named float
 	return e
 }
 
@@ -121,7 +153,11 @@ func keyTypes() []*ty.Ty {
 // exhaustively (thorough) or a seeded sample of n2 (quick); maps over every key type; unnamed
 // structs; plus `extra` random depth-3 types.
 func NewCorpus(rng *rand.Rand, thorough bool, n2, extra int) *Corpus {
-	env := Lib()
+	return NewCorpusEnv(Lib(), rng, thorough, n2, extra)
+}
+
+// NewCorpusEnv is NewCorpus over a given declaration library.
+func NewCorpusEnv(env *ty.Env, rng *rand.Rand, thorough bool, n2, extra int) *Corpus {
 	c := &Corpus{Env: env}
 	seen := map[string]bool{}
 	add := func(t *ty.Ty) {
